@@ -192,10 +192,12 @@ def make_quad_mesh(points, size_u, size_v):
     vertex_idx = 0
     quad_idx = 0
 
-    # Generate vertices
+    # Generate vertices (points are ordered like the evaluated points: v index varies first)
     vertices = []
     for pt in points:
         vrt = Vertex(*pt, id=vertex_idx)
+        # parametric position of the vertex, as in make_triangle_mesh
+        vrt.uv = [float(vertex_idx // size_v) / float(size_u - 1), float(vertex_idx % size_v) / float(size_v - 1)]
         vertices.append(vrt)
         vertex_idx += 1
 
